@@ -152,7 +152,16 @@ def getitem(np_, a, idx):
         # a[index array] (1-D): element i is a[idx[i]]  (indices are assumed in range: they come from argsort)
         if a.ndim != 1 or idx.ndim != 1 or idx.dtype.kind not in "iu":
             raise Untranslatable("advanced indexing of symbolic-extent arrays (only 1-D integer index arrays)")
-        return from_fn(np_, idx.shape, a.dtype, lambda i: z3.Select(a.term, z3.Select(idx.term, i)))
+        # a named array with its definition as an assumption (a definitional extension): keeps later obligations free of lambdas
+        ctx = np_.I.ctx
+        r = z3.Const(ctx.fresh_name("gather"), a.term.sort())
+        i = z3.Int(ctx.fresh_name("i"))
+        n = term_of(raw(idx.shape[0]), "int")
+        ctx.assume(z3.ForAll([i], z3.Implies(z3.And(i >= 0, i < n), z3.Select(r, i) == z3.Select(a.term, z3.Select(idx.term, i)))),
+                   "definition of array[index array]")
+        res = TArr(r, idx.shape, a.dtype)
+        res.gather_of = (a.term, idx.term)
+        return res
     if not isinstance(idx, tuple):
         idx = (idx,)
     if any(x is Ellipsis for x in idx):
@@ -219,6 +228,13 @@ def setitem(np_, a, idx, v):
 
 _SUMS = {}
 _SQUARES = {}
+
+
+def square_axiom(t):
+    """the defining property of square_term(t) (given to the solver only where a hint asks for it)"""
+    sq = square_term(t)
+    j = z3.Int("%sq!j")
+    return z3.ForAll([j], z3.Select(sq, j) == z3.Select(t, j) * z3.Select(t, j))
 
 
 def square_term(t):
